@@ -28,13 +28,36 @@ def gen_build(rnd, maxkeys=10, kind=None, prune=None, deletes=True):
             "universe": universe.kind}
 
 
+def prime(t, op):
+    """Read-only calls issued between the operations that build the trie under study.  Their
+    results are not judged here (lookups on a complete database must not raise: that part is
+    enforced by cut); they exist so that anything the implementation remembers from an earlier
+    state - a cached root node, memoised paths, iterator state - is populated BEFORE the trie
+    changes, and staleness shows up in the audit that follows the build."""
+    from trie.exceptions import TraversedPartialPath
+    from trie.iter import NodeIterator
+
+    from vt.core import cut, unhx
+    from vt.ref.mpt import nibs
+
+    k = unhx(op[1])
+    cut(lambda: t.root_node)
+    cut(t.get, k)
+    cut(t.exists, k)
+    cut(t.get_proof, k)
+    cut(t.traverse, tuple(nibs(k)), expect=(TraversedPartialPath,))
+    cut(NodeIterator(t).next, k)
+
+
 def build(case):
     db = RecordingDB()
     db.record = False
     t = HexaryTrie(db, prune=case.get("prune", False))
     model = {}
-    for op in case["hist"]:
+    for i, op in enumerate(case["hist"]):
         hh.apply_plain(t, model, op)
+        if case.get("prime", True) and i % 2 == 0:
+            prime(t, op)
     return t, db, model, RefTrie(model)
 
 
